@@ -86,6 +86,8 @@ def behaviour_of(segment):
            "deagg": segment[0].get("deagg", 90),
            "mftdue": segment[0].get("mftdue", False),
            "objdue": segment[0].get("objdue", False)}
+    if segment[0].get("timing"):
+        beh["timing"] = segment[0]["timing"]
     add_timing(beh)
     return beh
 
@@ -446,6 +448,23 @@ CLAUSES = {
         _a("RollInit", c="B"),
         _a("RollActivate", c="B"), _a("Settle"),
         _a("RollActivate", c="B"), _a("Settle")]},
+    # C02 / C03: the check for inactive children suspends every child with
+    # certificates at once (two levels); the children call in again; once
+    # more while an entitlement change and a roll are under way
+    "auto-suspend-inactive-children": {
+        "timing": {"suspend_child_after_inactive_seconds": 1}, "actions": [
+        _a("AddCa", c="B", p="A", res=["p1", "p2", "a1"]), _a("Settle"),
+        _a("AddCa", c="C", p="B", res=["p1"]), _a("Settle"),
+        _a("RoaAdd", c="C", r=["p1", "a1"]),
+        _a("RoaAdd", c="B", r=["p2", "a1"]), _a("Settle"),
+        _a("AutoSuspend"),
+        _a("Step", task="sync_repo_A"), _a("Step", task="sync_repo_B"),
+        _a("Settle"),
+        _a("RollInit", c="C"), _a("Settle"),
+        _a("AutoSuspend"),
+        _a("ChildRes", c="B", p="A", res=["p1", "a1"]), _a("Settle"),
+        _a("RollActivate", c="C"), _a("AutoSuspend"), _a("Settle"),
+        _a("Settle")]},
     # C04: the child rolls while its parent rolls
     "roll-parent-and-child": {"actions": [
         _a("AddCa", c="B", p="A", res=["p1", "p2"]), _a("Settle"),
@@ -564,7 +583,7 @@ def generate(chk, themes, num, depth, seed, theme_nums=None):
             # the target length: keep one behaviour per simulated trace by
             # cutting all of them at the same point)
             # (deeper hierarchies need longer behaviours)
-            cut = {"foreign2": 46, "deep": 46}.get(theme, depth)
+            cut = {"foreign2": 46, "deep": 46, "autosus": 40}.get(theme, depth)
             acts = b["actions"][:cut - 6] + [{"a": "Settle"}]
             if theme == "tduring":
                 rnd = random.Random(seed * 7919 + len(acts) + i)
@@ -627,6 +646,10 @@ def generate(chk, themes, num, depth, seed, theme_nums=None):
                         out.append(a)
                         k += 1
                 acts = out
+            if theme == "autosus":
+                # the instance suspends children it has not heard of for a
+                # second when the check for inactive children runs
+                b["timing"] = {"suspend_child_after_inactive_seconds": 1}
             if theme == "agg":
                 # route origins are aggregated per origin AS as soon as a CA
                 # has more than one authorisation (so that one update can
